@@ -4,9 +4,9 @@ package main
 
 import (
 	"fmt"
-	"strings"
 	"go/types"
 	"sort"
+	"strings"
 
 	"golang.org/x/tools/go/ssa"
 )
@@ -35,21 +35,21 @@ type privBox struct {
 }
 
 type State struct {
-	private []privBox
-	locals map[localKey]Val
-	heap   map[string]T // heap key -> current array term (absent = initial)
-	top    T            // allocation frontier: every live reference is <= top
-	iters  map[iterKey]T
-	defers []deferRec
-	ghost  map[string]T // ghost counters etc.
-	epoch  int          // bumped by `modifies everything`: untouched heap keys start from fresh arrays
+	private    []privBox
+	locals     map[localKey]Val
+	heap       map[string]T // heap key -> current array term (absent = initial)
+	top        T            // allocation frontier: every live reference is <= top
+	iters      map[iterKey]T
+	defers     []deferRec
+	ghost      map[string]T // ghost counters etc.
+	epoch      int          // bumped by `modifies everything`: untouched heap keys start from fresh arrays
 	ghostEpoch int
 	chain      []epochStep // how the current epoch was reached (for keys excepted from a havoc)
 }
 
 type epochStep struct {
 	epoch, prev, prevGhost int
-	except      []string
+	except                 []string
 }
 
 func exceptMatches(except []string, key string) bool {
